@@ -177,6 +177,8 @@ func (server *Server) ServeCodec(codec ServerCodec) {
 			})
 		}
 	}
+	// run the requests still queued for decoding before waiting for their handlers
+	pipeline.Close()
 	wg.Wait()
 	server.mutex.Lock()
 	server.deleteCodec(codec)
@@ -526,6 +528,8 @@ func (server *Server) listen(sock socket.Socket, address string, New NewServerCo
 			}
 			if err == io.EOF || err == io.ErrUnexpectedEOF {
 				if atomic.CompareAndSwapInt32(&svrctx.closed, 0, 1) {
+					// run the requests still queued for decoding before waiting for their handlers
+					svrctx.pipeline.Close()
 					svrctx.wg.Wait()
 					server.mutex.Lock()
 					delete(codecs, svrctx.codec)
